@@ -62,12 +62,30 @@ theorem trySeq_list {kind vc} {ds xs : List Val} {x : Val} (hm : mapMO (tryC E v
     simp only [tryC, Val.isSeq, Val.seqItems, Bool.not_true, Bool.false_eq_true, if_false, hm,
       Outcome.bind_ok, hc, swallow]
 
+/-- the point of the hook: a custom handler registered for the runtime type of an element of undeclared type
+answers for it, whatever the built-in dispatch would have done -/
+theorem dynElem_hook (E : Ext) (dyn : Val → Except Exc Val) (v : Val) (r : Except Exc Val)
+    (h : E.elemHook v = some r) : dynElem E dyn v = r := by
+  unfold dynElem; rw [h]
+
+/-- without a custom handler `dynElem` is the built-in dispatch on the element's runtime type -/
+theorem dynElem_noHook (hE : NoElemHook E) (f : Val → Except Exc Val) (v : Val) :
+    dynElem E f v =
+      match v with
+      | .sub _ b =>
+        match Facts.basicTable.lookup b.typeName with
+        | some (.scalar ty _ ser _ _) => scalarSer E ty ser v
+        | _ => f v
+      | v => f v := by
+  unfold dynElem; rw [hE v]; rfl
+
 /-- on a value that is not an instance of a scalar subclass the serialiser a container converter picks
 for an element is the element converter's own (for `Any`: both are the untyped serialiser) -/
-theorem anyOr_eq (c : Conv) (x : Val) (h : c = .any → x.isData = true) :
+theorem anyOr_eq (hE : NoElemHook E) (c : Conv) (x : Val) (h : c = .any → x.isData = true) :
     anyOr E dyn c (intoC E dyn c) x = intoC E dyn c x := by
   cases c <;> try rfl
   have hx := h rfl
+  simp only [anyOr, dynElem_noHook hE, intoC]
   cases x <;> first | rfl | (simp [Val.isData] at hx)
 
 /-- `intoC` on a sequence converter, on the payload of a sequence value -/
@@ -84,7 +102,7 @@ theorem intoC_seq_list (kind vc) (xs : List Val) :
       (exMapM (anyOr E dyn vc (intoC E dyn vc)) xs).map fun ys => if kind == "tuple" then .tuple ys else .list ys :=
   ⟨rfl, rfl, rfl, rfl, rfl⟩
 
-theorem rt_seq {kind vc} (hk : seqKinds.contains kind = true) (h : RTGood E dyn N vc) :
+theorem rt_seq {kind vc} (hE : NoElemHook E) (hk : seqKinds.contains kind = true) (h : RTGood E dyn N vc) :
     RTGood E dyn N (.seq kind vc) := by
   rintro x hx ⟨v, hv, ht⟩ hok
   obtain ⟨_, xs, hm, hctor⟩ := trySeq_inv ht
@@ -102,7 +120,7 @@ theorem rt_seq {kind vc} (hk : seqKinds.contains kind = true) (h : RTGood E dyn 
     rw [← h1]
     apply exMapM_congr
     intro y hy
-    apply anyOr_eq
+    apply anyOr_eq hE
     intro hvc
     subst hvc
     obtain ⟨u, hu, hf⟩ := helem y (hpay y hy)
@@ -305,7 +323,7 @@ theorem dictCtor_map (kind : String) (D : List (Val × Val)) :
     (dictCtor kind D).isMap = true ∧ (dictCtor kind D).mapItems = D := by
   unfold dictCtor; split <;> exact ⟨rfl, rfl⟩
 
-theorem rt_dict {kind k vc} (hk : IdGood E dyn N k) (hv : RTGood E dyn N vc) :
+theorem rt_dict {kind k vc} (hE : NoElemHook E) (hk : IdGood E dyn N k) (hv : RTGood E dyn N vc) :
     RTGood E dyn N (.dict kind k vc) := by
   rintro x hx ⟨v, hvd, ht⟩ hok
   rw [tryC_dict] at ht
@@ -352,9 +370,9 @@ theorem rt_dict {kind k vc} (hk : IdGood E dyn N k) (hv : RTGood E dyn N vc) :
         obtain ⟨u1, hu1, t1, _⟩ := hsrc q1 hq1
         obtain ⟨u2, hu2, _, t2⟩ := hsrc q2 hq2
         rw [e1] at t1; rw [e2] at t2
-        have a1 : anyOr E dyn k (intoC E dyn k) p.1 = intoC E dyn k p.1 := anyOr_eq k p.1 (fun hk' => by
+        have a1 : anyOr E dyn k (intoC E dyn k) p.1 = intoC E dyn k p.1 := anyOr_eq hE k p.1 (fun hk' => by
           subst hk'; simp only [tryC, Outcome.ok.injEq] at t1; rw [← t1]; exact (Val.isData_mapItems hvd u1 hu1).1)
-        have a2 : anyOr E dyn vc (intoC E dyn vc) p.2 = intoC E dyn vc p.2 := anyOr_eq vc p.2 (fun hv' => by
+        have a2 : anyOr E dyn vc (intoC E dyn vc) p.2 = intoC E dyn vc p.2 := anyOr_eq hE vc p.2 (fun hv' => by
           subst hv'; simp only [tryC, Outcome.ok.injEq] at t2; rw [← t2]; exact (Val.isData_mapItems hvd u2 hu2).2)
         simp only [dictOne, a1, a2]
       refine ⟨.dict kvs', ?_, Val.isData_dict g3 hh' (by rw [g2]; exact hdist), ?_⟩
